@@ -37,7 +37,13 @@ var root = func() string {
 	return "/verif"
 }()
 
-const repo = "/repo"
+// repo is /repo unless VERIF_REPO points at a snapshot of it (background runs with --with-repo).
+var repo = func() string {
+	if r := os.Getenv("VERIF_REPO"); r != "" {
+		return r
+	}
+	return "/repo"
+}()
 
 type part struct {
 	Name   string
